@@ -25,6 +25,7 @@ func init() {
 }
 
 func runC19(c *Ctx, r *Run) {
+	checkFillWidths(c, r, "WIDTH-1")
 	checkResultsUsed(c, r, "USE-1", 100)
 	r.Rule("ENC-0", "item framing in hash.WriteAny: variable-width writes are length-prefixed by a fixed-width encoding of len() of the same value on every path; the type switch rejects unknown types")
 	r.Rule("FS-7", "every field of a self-writing struct type is read by its WriteTo (or the codec it delegates to)")
@@ -1570,4 +1571,53 @@ func bytesEquality(cond ssa.Value) (*ssa.Call, bool) {
 		}
 	}
 	return nil, false
+}
+
+// fillWidths: fixed-width big-number encodings (saferith FillBytes truncates silently when the buffer is too small) and
+// the constant of internal/params that is the width of the value's domain.
+var fillWidths = map[string]struct{ constName, why string }{
+	"pkg/paillier.(*Ciphertext).WriteTo": {"BytesCiphertext", "a ciphertext is a residue modulo N²: 2·BytesPaillier bytes"},
+	"pkg/pedersen.(*Parameters).WriteTo": {"BytesIntModN", "N, s and t are residues modulo N"},
+}
+
+// checkFillWidths: WIDTH-1.
+func checkFillWidths(c *Ctx, r *Run, rule string) {
+	r.Rule(rule, "fixed-width big-number encodings use a buffer as wide as the value's domain (FillBytes truncates silently)")
+	pp := c.PkgRel("internal/params")
+	for _, p := range c.LibPkgs() {
+		for _, top := range funcsOfPkg(c, c.SSA[p.Types]) {
+			withAnon(top, func(fn *ssa.Function) {
+				allInstrs(fn, func(in ssa.Instruction) {
+					call, ok := in.(*ssa.Call)
+					if !ok {
+						return
+					}
+					f := call.Call.StaticCallee()
+					if f == nil || f.Name() != "FillBytes" || f.Pkg == nil || !strings.HasSuffix(f.Pkg.Pkg.Path(), "cronokirby/saferith") {
+						return
+					}
+					name := c.FuncName(fn)
+					r.Analysed(name)
+					want, tabled := fillWidths[name]
+					if !tabled {
+						r.Fail(rule, name+"|width", c.Pos(call.Pos()), "the encoding's width is tabled", "UNDECIDED: new fixed-width encoding (FillBytes) in "+name+": its domain width is not in the reviewed table")
+						return
+					}
+					k, isK := madeLen(resolveLoad(call.Call.Args[len(call.Call.Args)-1]))
+					exp := int64(-1)
+					if pp != nil {
+						if cst, ok := pp.Types.Scope().Lookup(want.constName).(*types.Const); ok {
+							if v, exact := constant.Int64Val(cst.Val()); exact {
+								exp = v
+							}
+						}
+					}
+					r.Check(rule, name+"|width", c.Pos(call.Pos()), isK && exp > 0 && k == exp,
+						fmt.Sprintf("the buffer has params.%s = %d bytes (%s)", want.constName, exp, want.why),
+						fmt.Sprintf("the buffer handed to FillBytes has %d bytes, the domain needs params.%s = %d (%s): the upper bytes are silently dropped, so values that differ only there hash to the same bytes (colliding transcripts, challenges and commitments)", k, want.constName, exp, want.why))
+				})
+			})
+		}
+	}
+	r.Require(rule, 2)
 }
